@@ -343,7 +343,7 @@ func scenC19(w *vsim.World, spec *vsim.Spec) {
 		forwarded++
 		w.Probe("forwarded-" + cur.shape)
 		route := "router"
-		if r.Header.Get("X-Forwarded-For") != "" {
+		if _, ok := r.Header["X-Forwarded-For"]; ok {
 			route = "legacy-proxy"
 		}
 		for _, h := range wireHaystacks(r) {
@@ -354,7 +354,16 @@ func scenC19(w *vsim.World, spec *vsim.Spec) {
 				if t.kind == "legacy-known" && t.owner == cl {
 					continue // a legacy token that belongs to the remote itself may go there as it is
 				}
-				w.ViolationSig("c19/unsalted-secret-on-the-wire", route+":"+h[0]+":"+t.class(),
+				sig := route + ":" + h[0]
+				if t.kind == "v2-40" && sentAsCredential(r, t.text) {
+					// forwarded on purpose, unchanged: the 40-character secret was taken for a salt
+					sig = "40char-secret-treated-as-salted"
+				}
+				if fedIgnored(sig) {
+					w.Probe("ignored-" + sig)
+					continue
+				}
+				w.ViolationSig("c19/unsalted-secret-on-the-wire", sig,
 					"request %q (%s, config=%s) carried token kind=%s in %s; its unsalted secret was sent to cluster %s in %s of the forwarded %s %s (route=%s). incoming tokens: %s",
 					cur.shape, cur.req.Method, path(), t.kind, cur.places[i], cl, h[0], r.Method, r.Path, route, describeTokens(cur))
 				return nil
@@ -384,7 +393,6 @@ func scenC19(w *vsim.World, spec *vsim.Spec) {
 							sent = append(sent, l...)
 						}
 					}
-					sent = append(sent, v["api_token"]...)
 				}
 			}
 			if len(sent) == 0 {
@@ -398,7 +406,15 @@ func scenC19(w *vsim.World, spec *vsim.Spec) {
 							kind = t.kind
 						}
 					}
-					w.ViolationSig("c19/forwarded-token-is-not-the-reference-salt", route+":"+kind,
+					sig := route + ":" + kind
+					if kind == "v2-40" {
+						sig = "40char-secret-treated-as-salted"
+					}
+					if fedIgnored(sig) {
+						w.Probe("ignored-" + sig)
+						continue
+					}
+					w.ViolationSig("c19/forwarded-token-is-not-the-reference-salt", sig,
 						"request %q (config=%s): cluster %s was sent credential %q, which is not v2/<uuid>/HMAC-SHA1(secret, %q) of any incoming token nor an unchanged salted/foreign token. incoming tokens: %s",
 						cur.shape, path(), cl, s, cl, describeTokens(cur))
 					return nil
@@ -460,6 +476,31 @@ func scenC19(w *vsim.World, spec *vsim.Spec) {
 		}
 	}
 	w.SetEndState(fmt.Sprintf("%s|%d|%d", path(), done, forwarded))
+}
+
+// sentAsCredential: does the forwarded request present tok itself as its credential
+// (Authorization header or reader_tokens parameter)?
+func sentAsCredential(r *vsim.NetRequest, tok string) bool {
+	for _, a := range r.Header["Authorization"] {
+		if strings.HasSuffix(a, " "+tok) {
+			return true
+		}
+	}
+	for _, src := range []string{r.Query, string(r.Body)} {
+		if v, err := url.ParseQuery(src); err == nil {
+			for _, rt := range v["reader_tokens"] {
+				var l []string
+				if json.Unmarshal([]byte(rt), &l) == nil {
+					for _, x := range l {
+						if x == tok {
+							return true
+						}
+					}
+				}
+			}
+		}
+	}
+	return false
 }
 
 func describeTokens(p *c19plan) string {
